@@ -114,6 +114,26 @@ func parseSrc(s string, doc bool, ctx string) ([]*html.Node, error) {
 	if doc {
 		return hx.ParseDoc(s)
 	}
+	return parseMode(s, doc, ctx, true)
+}
+
+// parseMode parses with the scripting flag of the HTML5 tree builder set explicitly. The flag
+// decides how <noscript> is read: raw text when scripting is on (a browser), markup when it is
+// off (a crawler, a server-side tool). A template means the same after formatting only if it
+// parses the same under both.
+func parseMode(s string, doc bool, ctx string, scripting bool) ([]*html.Node, error) {
+	opt := html.ParseOptionEnableScripting(scripting)
+	if doc {
+		d, err := html.ParseWithOptions(strings.NewReader(s), opt)
+		if err != nil {
+			return nil, err
+		}
+		var out []*html.Node
+		for c := d.FirstChild; c != nil; c = c.NextSibling {
+			out = append(out, c)
+		}
+		return out, nil
+	}
 	if ctx == "" {
 		ctx = "body"
 	}
@@ -121,7 +141,7 @@ func parseSrc(s string, doc bool, ctx string) ([]*html.Node, error) {
 	if !ok {
 		return nil, fmt.Errorf("unknown context %q", ctx)
 	}
-	return html.ParseFragment(strings.NewReader(s), &html.Node{Type: html.ElementNode, Data: ctx, DataAtom: a})
+	return html.ParseFragmentWithOptions(strings.NewReader(s), &html.Node{Type: html.ElementNode, Data: ctx, DataAtom: a}, opt)
 }
 
 // walk visits every node below the forest.
@@ -325,22 +345,26 @@ func check(c Case) error {
 		}
 	}
 	// (d) same elements / attribute names / values / text under the HTML5 parser
-	in, err := parseSrc(c.Doctype+c.Body, c.Doc, c.Ctx)
-	if err != nil {
-		return nil // the reference parser refuses the input: nothing to compare against
-	}
-	out, err := parseSrc(rest, c.Doc, c.Ctx)
-	if err != nil {
-		return fmt.Errorf("formatted output no longer parses: %v", err)
-	}
-	mi, mo := mustaches(in), mustaches(out)
-	ni, no := normalise(in), normalise(out)
-	if d := hx.Diff(ni, no, hx.Options{AttrEq: attrEq}); d != "" {
-		return fmt.Errorf("meaning changed (input vs formatted, HTML5 parse): %s\n input:     %q\n formatted: %q", readable(d), short(src), short(o1))
-	}
-	// (e) same mustache expressions
-	if strings.Join(mi, "\x00") != strings.Join(mo, "\x00") {
-		return fmt.Errorf("mustache expressions changed: %q vs %q (input %q, formatted %q)", mi, mo, short(src), short(o1))
+	// in both modes of the tree builder (scripting off: <noscript> holds markup; on: raw text)
+	for _, scripting := range []bool{false, true} {
+		mode := map[bool]string{false: "scripting off", true: "scripting on"}[scripting]
+		in, err := parseMode(c.Doctype+c.Body, c.Doc, c.Ctx, scripting)
+		if err != nil {
+			return nil // the reference parser refuses the input: nothing to compare against
+		}
+		out, err := parseMode(rest, c.Doc, c.Ctx, scripting)
+		if err != nil {
+			return fmt.Errorf("formatted output no longer parses: %v", err)
+		}
+		mi, mo := mustaches(in), mustaches(out)
+		ni, no := normalise(in), normalise(out)
+		if d := hx.Diff(ni, no, hx.Options{AttrEq: attrEq}); d != "" {
+			return fmt.Errorf("meaning changed (input vs formatted, HTML5 parse, %s): %s\n input:     %q\n formatted: %q", mode, readable(d), short(src), short(o1))
+		}
+		// (e) same mustache expressions
+		if strings.Join(mi, "\x00") != strings.Join(mo, "\x00") {
+			return fmt.Errorf("mustache expressions changed (%s): %q vs %q (input %q, formatted %q)", mode, mi, mo, short(src), short(o1))
+		}
 	}
 	return nil
 }
@@ -727,6 +751,14 @@ func classify(c Case) (bool, []string) {
 					}
 				case rawTags[t]:
 					add("el:" + t)
+					if t == "noscript" {
+						if inside(n, "head") {
+							add("el:noscript-in-head")
+						}
+						if c.Doc {
+							add("el:noscript-in-document")
+						}
+					}
 					if txt := textOf(n); (t == "pre" || t == "textarea") && txt != collapse(txt) {
 						add(t + ":significant-whitespace")
 					}
@@ -757,6 +789,12 @@ func classify(c Case) (bool, []string) {
 					switch {
 					case a.Namespace != "":
 						add("attr-name:namespaced")
+						add("attr-name:namespaced:" + a.Namespace)
+						for _, b := range n.Attr {
+							if b.Namespace == "" && b.Key == a.Key {
+								add("attr-name:namespaced-next-to-local-name")
+							}
+						}
 					case strings.HasPrefix(k, "v-"):
 						add("attr-name:v-directive")
 					case strings.HasPrefix(k, ":"):
